@@ -589,6 +589,7 @@ let point_name (ts : tstate) : string =
   match ts.t_pc with
   | Idle -> (match ts.t_calls with [] -> "end" | _ -> "start")
   | PReg _ -> "commit.register" | PILock _ -> "intent.lock_I" | PRen _ -> "commit.rename"
+  | PDropI _ -> "guard_drop.lock_I"
   | WLockI w -> wn w "lock_I" | WLockS w -> wn w "lock_S" | WLockW w -> wn w "lock_W"
   | WApplied (w, _, _) -> wn w "applied" | WUnlink _ -> "cas.unlink" | WReleased (w, _) -> wn w "released_I"
   | WCkS (_, who) -> (match int_of_n who with 0 -> "ckpt.lock_S" | 1 -> "put.ckpt.lock_S" | _ -> "rm.ckpt.lock_S")
@@ -603,6 +604,7 @@ let cres_str = function
   | CSize None -> "none" | CSize (Some x) -> "size:" ^ decimal_of_n x
   | CMissing -> "err:BlobDataMissing"
   | COrphans (d, sk) -> Printf.sprintf "orphans:del=%s,skip=%s" (decimal_of_n d) (decimal_of_n sk)
+  | CErr -> "err:fault"
 let parse_ccall (toks : string list) (orphans : bytes list) : ccall =
   match toks with
   | ["put"; k; cs] -> KPut (key_of k, concat (parse_chunks cs))
@@ -628,6 +630,7 @@ let run_conc (name : string) (lines : string list) =
   let cas0 = ref [] and orphans = ref [] in
   let setup = ref [] and threads : (int * string list list) list ref = ref [] in
   let seed = ref 1 and fixed : int list option ref = ref None in
+  let badl : bytes list ref = ref [] and ckbad = ref false in
   List.iter (fun l ->
     match List.filter (fun s -> s <> "") (String.split_on_char ' ' l) with
     | "cfg" :: kvs -> cfg := List.fold_left apply_kv !cfg kvs
@@ -636,6 +639,9 @@ let run_conc (name : string) (lines : string list) =
       let h = hash_fn data in
       cas0 := sm_ins lex_cmp !cas0 h data; orphans := !orphans @ [h]
     | "setup" :: rest -> setup := !setup @ [rest]
+    | ["undeletable"; c] -> badl := hash_fn (bytes_of_string (parse_chunk c)) :: !badl
+    | ["blockckpt"] -> ckbad := true
+    | "fsched" :: _ -> ()
     | "thread" :: t :: rest ->
       let t = int_of_string t in
       threads := (if List.mem_assoc t !threads then List.map (fun (u, c) -> if u = t then (u, c @ [rest]) else (u, c)) !threads else !threads @ [(t, [rest])])
@@ -649,10 +655,12 @@ let run_conc (name : string) (lines : string list) =
   let thr = (0, List.map (fun c -> parse_ccall c orph) !setup) ::
             List.map (fun (t, cs) -> (t, List.map (fun c -> parse_ccall c orph) cs)) !threads in
   let g = ref (init_c (List.map (fun (t, cs) -> (nat_of_int t, cs)) thr) !cas0) in
-  let step t = cstep hash_fn cmp !cfg.c_n !g (nat_of_int t) in
-  (* setup: thread 0 runs to completion first *)
+  (* the obstacles are put in place after the setup calls: the setup runs without them *)
+  let nobad = fun _ -> false in
+  let bad = fun h -> List.mem h !badl in
   let continue = ref true in
-  while !continue do (match step 0 with Some g' -> g := g' | None -> continue := false) done;
+  while !continue do (match cstep hash_fn cmp !cfg.c_n nobad false !g (nat_of_int 0) with Some g' -> g := g' | None -> continue := false) done;
+  let step t = cstep hash_fn cmp !cfg.c_n bad !ckbad !g (nat_of_int t) in
   Printf.printf "CASE %s\n" name;
   Printf.printf "S init %s\n" (state_line !g);
   let tids = List.map fst !threads in
@@ -662,7 +670,7 @@ let run_conc (name : string) (lines : string list) =
   let pending = ref (match !fixed with Some l -> l | None -> []) in
   let fin = ref false in
   while not !fin do
-    let en = List.filter (fun t -> enabled hash_fn cmp !cfg.c_n !g (nat_of_int t)) tids in
+    let en = List.filter (fun t -> enabled hash_fn cmp !cfg.c_n bad !ckbad !g (nat_of_int t)) tids in
     if en = [] then begin
       fin := true;
       if not (List.for_all (fun t -> match tget !g.g_thr (nat_of_int t) with Some ts -> finished_t ts | None -> true) tids)
@@ -695,50 +703,68 @@ let run_race (file : string) =
     if !name <> "" then begin
       Printf.printf "CASE %s\n" !name;
       let evl = List.rev !evs in
-      (* map slots/processes to handle ids and pids while walking the events *)
+      (* map slots/processes to handle ids and pids while walking the events; the model is the
+         inode-level one (OpenLock2), which refines OpenLock on atomic opens (C11_2_refines_atomic) *)
       let slots : (string, int) Hashtbl.t = Hashtbl.create 8 in
-      let next_id = ref 0 in
+      let toks : (string, int) Hashtbl.t = Hashtbl.create 8 in
+      let next_tok = ref 0 in
       let model_evs = ref [] in       (* reversed *)
-      let current () = results (List.rev !model_evs) in
+      let current () = results2 (List.rev !model_evs) in
       let push e = model_evs := e :: !model_evs in
       let last_res () = (match List.rev (current ()) with r :: _ -> r | [] -> RNone) in
+      let won s pid kind h =
+        Hashtbl.replace slots s (int_of_nat h);
+        Hashtbl.replace slots ("pid:" ^ s) pid;
+        if kind = "openstats" then begin push (E2Clone h); Hashtbl.replace slots (s ^ ":stats") (int_of_nat h) end in
       List.iteri (fun i e ->
         let str = String.concat " " e in
         let out = match e with
           | ["open"; s] | ["openstats"; s] | ["spawn"; s] | ["openn"; s; _] ->
             let pid = (match e with "spawn" :: _ -> 1 + Hashtbl.hash s mod 1000 | _ -> 0) in
-            let free_now = (match List.rev (results (List.rev (EOpen (nat_of_int 0) :: !model_evs))) with ROpened _ :: _ -> true | _ -> false) in
+            let free_now = (match List.rev (results2 (List.rev (E2Open (nat_of_int 0) :: !model_evs))) with ROpened _ :: _ -> true | _ -> false) in
             if free_now && (match e with ["openn"; _; nn] -> nn <> "3" | _ -> false)
             then "err:settings.ValidationFailed"       (* the settings gate, not the lock: C19 *)
             else begin
-            push (EOpen (nat_of_int pid));
+            push (E2Open (nat_of_int pid));
             (match last_res () with
-             | ROpened h -> Hashtbl.replace slots s (int_of_nat h); next_id := int_of_nat h + 1;
-               Hashtbl.replace slots ("pid:" ^ s) pid;
-               (match e with "openstats" :: _ -> push (EClone h); Hashtbl.replace slots (s ^ ":stats") (int_of_nat h) | _ -> ());
-               "opened"
+             | ROpened h -> won s pid (List.hd e) h; "opened"
              | RAlreadyOpened -> (match e with "spawn" :: _ -> "already" | _ -> "already same=true calls=[create LOCK]")
              | RNone -> "none") end
+          | ["openfd"; s] ->
+            incr next_tok; Hashtbl.replace toks s !next_tok;
+            push (E2OpenFd (nat_of_int !next_tok, nat_of_int 0)); "none"
+          | ["lock"; s] ->
+            (match Hashtbl.find_opt toks s with
+             | None -> "none"
+             | Some t ->
+               Hashtbl.remove toks s;
+               push (E2Lock (nat_of_int t));
+               (match last_res () with
+                | ROpened h -> won s 0 "open" h; "opened"
+                | RAlreadyOpened -> "already"
+                | RNone -> "none"))
           | ["clone"; s; s2] ->
-            (match Hashtbl.find_opt slots s with Some h -> push (EClone (nat_of_int h)); Hashtbl.replace slots s2 h | None -> ()); "none"
+            (match Hashtbl.find_opt slots s with Some h -> push (E2Clone (nat_of_int h)); Hashtbl.replace slots s2 h | None -> ()); "none"
           | ["drop"; s] | ["dropcas"; s] ->
-            (match Hashtbl.find_opt slots s with Some h -> push (EDrop (nat_of_int h)); Hashtbl.remove slots s | None -> ()); "none"
+            (match Hashtbl.find_opt slots s with Some h -> push (E2Drop (nat_of_int h)); Hashtbl.remove slots s | None -> ()); "none"
           | ["dropstats"; s] ->
-            (match Hashtbl.find_opt slots (s ^ ":stats") with Some h -> push (EDrop (nat_of_int h)); Hashtbl.remove slots (s ^ ":stats") | None -> ()); "none"
+            (match Hashtbl.find_opt slots (s ^ ":stats") with Some h -> push (E2Drop (nat_of_int h)); Hashtbl.remove slots (s ^ ":stats") | None -> ()); "none"
           | ["kill"; s] ->
-            (match Hashtbl.find_opt slots ("pid:" ^ s) with Some pid -> push (EKill (nat_of_int pid)) | None -> ()); "none"
+            (match Hashtbl.find_opt slots ("pid:" ^ s) with Some pid -> push (E2Kill (nat_of_int pid)) | None -> ()); "none"
           | ["racethreads"; n] | ["raceprocs"; n] ->
             (* n simultaneous opens whose handles are all dropped afterwards: in the model, any order *)
             let n = int_of_string n in
             let before = List.length (current ()) in
-            for j = 1 to n do push (EOpen (nat_of_int (2000 + j))) done;
+            for j = 1 to n do push (E2Open (nat_of_int (2000 + j))) done;
             let rs = List.filteri (fun idx _ -> idx >= before) (current ()) in
             let w = List.length (List.filter (function ROpened _ -> true | _ -> false) rs) in
             let l = List.length (List.filter (function RAlreadyOpened -> true | _ -> false) rs) in
-            List.iter (function ROpened h -> push (EDrop h) | _ -> ()) rs;
+            List.iter (function ROpened h -> push (E2Drop h) | _ -> ()) rs;
             Printf.sprintf "winners=%d already=%d other=%d" w l (n - w - l)
           | _ -> failwith ("bad race event " ^ str) in
-        Printf.printf "E %d %s -> %s\n" i str out) evl
+        Printf.printf "E %d %s -> %s\n" i str out;
+        let lf = (match List.rev (lockfile_from init2 (List.rev !model_evs)) with b :: _ -> b | [] -> false) in
+        Printf.printf "L %d lock=%s\n" i (if lf then "present" else "absent")) evl
     end;
     evs := []; name := "" in
   (try while true do
